@@ -32,6 +32,8 @@ func NewWhipClient(g *group.Group, id string, token string, addr net.Addr) *Whip
 }
 
 func (c *WhipClient) Group() *group.Group {
+	c.mu.Lock()
+	defer c.mu.Unlock()
 	return c.group
 }
 
@@ -83,13 +85,13 @@ func (c *WhipClient) PushConn(g *group.Group, id string, conn conn.Up, tracks []
 }
 
 func (c *WhipClient) RequestConns(target group.Client, g *group.Group, id string) error {
-	if g != c.group {
-		return nil
-	}
-
 	c.mu.Lock()
+	cg := c.group
 	up := c.connection
 	c.mu.Unlock()
+	if g != cg {
+		return nil
+	}
 	if up == nil {
 		return nil
 	}
